@@ -55,12 +55,15 @@ def check_pass(model_proto, pass_fn, feeds, what, check_metadata=True):
         after = _ort_run(m2, feeds)
     except Exception as e:
         return False, f"{what}: the rewritten model no longer runs: {str(e)[:200]}"
-    for nm, b in before.items():
-        a = after.get(nm)
+    names_b, names_a = [o.name for o in model_proto.graph.output], [o.name for o in m2.graph.output]
+    if len(names_b) != len(names_a):
+        return False, f"{what}: the model has {len(names_a)} outputs after the pass, {len(names_b)} before"
+    for i, (nb, na) in enumerate(zip(names_b, names_a)):      # outputs are compared by position: a fold may rename an output
+        b, a = before[nb], after.get(na)
         if a is None:
-            return False, f"{what}: graph output `{nm}` disappeared"
+            return False, f"{what}: graph output #{i} `{na}` is not produced"
         if a.shape != b.shape or a.dtype != b.dtype or not np.allclose(a, b, rtol=1e-5, atol=1e-6, equal_nan=True):
-            return False, f"{what}: graph output `{nm}` changed (shape {b.shape}->{a.shape}, dtype {b.dtype}->{a.dtype}, max|diff| {np.max(np.abs(a.astype(np.float64) - b.astype(np.float64))) if a.shape == b.shape else 'n/a'})"
+            return False, f"{what}: graph output #{i} `{nb}` changed (shape {b.shape}->{a.shape}, dtype {b.dtype}->{a.dtype}, max|diff| {np.max(np.abs(a.astype(np.float64) - b.astype(np.float64))) if a.shape == b.shape else 'n/a'})"
     if check_metadata:
         produced = {o for n in m2.graph.node for o in n.output if o}
         decl = {k: v for k, v in _declared(m2).items() if k in produced}
@@ -191,3 +194,91 @@ def C08_copy_family():
 
 
 ALL = {"C02_reduce_family": C02_reduce_family, "C08_copy_family": C08_copy_family}
+
+
+# --------------------------------------------------------------------------- T11
+def C02_identity_reshape_family():
+    """x -> Reshape(x, const target) -> Relu, over declared input shapes (ints, symbolic, partly unknown, none) x targets
+    (equal, permuted, flattened, with -1 / 0 entries) x reshape output observed as graph output or not.
+    remove_identity_reshapes_ir must change no output and leave no false declaration."""
+    from onnx import helper, TensorProto, numpy_helper
+    rng = np.random.default_rng(11)
+    n = 0
+    real = (2, 3, 4)
+    decls = [[2, 3, 4], ["B", 3, 4], [None, 3, 4], None, [2, 3, "C"]]
+    targets = [[2, 3, 4], [3, 2, 4], [4, 3, 2], [6, 4], [24], [2, -1, 4], [0, 3, 4], [2, 3, -1], [-1, 3, 4], [2, 12], [1, 2, 3, 4]]
+    for decl, tgt, observe, opset in itertools.product(decls, targets, (False, True), (13, 21)):
+        x = rng.standard_normal(real).astype(np.float32)
+        out_shape = list(np.reshape(x, [real[i] if t == 0 else t for i, t in enumerate(tgt)] if len(tgt) <= 3 else tgt).shape)
+        nodes = [helper.make_node("Identity", ["x"], ["xi"], name="id"), helper.make_node("Reshape", ["xi", "s"], ["r"], name="rs"), helper.make_node("Relu", ["r"], ["y"], name="relu")]
+        inits = [numpy_helper.from_array(np.asarray(tgt, dtype=np.int64), "s")]
+        outs = [helper.make_tensor_value_info("y", TensorProto.FLOAT, out_shape)]
+        if observe:
+            outs.append(helper.make_tensor_value_info("r", TensorProto.FLOAT, out_shape))
+        vis = [helper.make_tensor_value_info("r", TensorProto.FLOAT, out_shape)]
+        if decl is not None:
+            vis.append(helper.make_tensor_value_info("xi", TensorProto.FLOAT, decl))
+        g = helper.make_graph(nodes, "g", [helper.make_tensor_value_info("x", TensorProto.FLOAT, list(real))], outs, initializer=inits, value_info=vis)
+        m = helper.make_model(g, opset_imports=[helper.make_opsetid("", opset)])
+        m.ir_version = 10
+        what = f"Reshape(x declared {decl}, target {tgt}) [{'reshape output is a graph output' if observe else 'intermediate'}, opset {opset}] on x{list(real)}"
+        ok, detail = check_pass(m, _single("remove_identity_reshapes_ir"), {"x": x}, what)
+        if ok is False:
+            return False, detail
+        if ok:
+            n += 1
+    return True, f"{n} reshape graphs unchanged and truthfully annotated"
+
+
+ALL["C02_identity_reshape_family"] = C02_identity_reshape_family
+
+
+# --------------------------------------------------------------------------- elementwise shape refresh (bounded stand-in)
+def C08_elementwise_refresh_family():
+    """op(a, b) for op in {Add, Mul, Where-free binary ops} with a, b declared from a pool of shapes (ranks 0..3 over
+    ints 1/3, symbols B/C and unknown dims; one operand optionally a size-1 constant) and fed tensors that satisfy the
+    declarations (symbols bound to 1, 3): after propagate_elementwise_shapes_ir no declared dim contradicts run time.
+    Bound: 2 operands, rank <= 3, extents in {1, 3}."""
+    from onnx import helper, TensorProto, numpy_helper
+    pool_dims = [1, 3, "B", "C", None]
+    shapes = [()] + [tuple(s) for r in (1, 2, 3) for s in itertools.product(pool_dims, repeat=r) if r < 3 or (s[0] in (3, "B") and s[2] in (1, 3, "C"))]
+    n = 0
+    for sa, sb in itertools.product(shapes, shapes):
+        for bind in ({"B": 3, "C": 3, None: 3}, {"B": 1, "C": 3, None: 3}, {"B": 3, "C": 1, None: 1}):
+            ra = tuple(d if isinstance(d, int) else bind[d] for d in sa)
+            rb = tuple(d if isinstance(d, int) else bind[d] for d in sb)
+            try:
+                out = np.broadcast_shapes(ra, rb)
+            except ValueError:
+                continue
+            nodes = [helper.make_node("Identity", ["a"], ["ai"]), helper.make_node("Identity", ["b"], ["bi"]), helper.make_node("Mul", ["ai", "bi"], ["m"]), helper.make_node("Relu", ["m"], ["y"])]
+            vis = [helper.make_tensor_value_info("ai", TensorProto.FLOAT, list(sa)), helper.make_tensor_value_info("bi", TensorProto.FLOAT, list(sb))]
+            g = helper.make_graph(nodes, "g", [helper.make_tensor_value_info("a", TensorProto.FLOAT, list(sa)), helper.make_tensor_value_info("b", TensorProto.FLOAT, list(sb))],
+                                  [helper.make_tensor_value_info("y", TensorProto.FLOAT, None)], value_info=vis)
+            m = helper.make_model(g, opset_imports=[helper.make_opsetid("", 21)])
+            m.ir_version = 10
+            feeds = {"a": np.ones(ra, np.float32), "b": np.full(rb, 2.0, np.float32)}
+            what = f"Mul(a declared {list(sa)}, b declared {list(sb)}) fed {list(ra)} x {list(rb)} -> {list(out)}"
+            ok, detail = check_pass(m, _single("propagate_elementwise_shapes_ir"), feeds, what)
+            if ok is False:
+                return False, detail
+            n += 1 if ok else 0
+    # one operand a size-1 constant of any rank <= 2
+    for sa in shapes[:40]:
+        for cshape in ((), (1,), (1, 1)):
+            ra = tuple(d if isinstance(d, int) else 3 for d in sa)
+            out = np.broadcast_shapes(ra, cshape)
+            nodes = [helper.make_node("Identity", ["a"], ["ai"]), helper.make_node("Add", ["ai", "c"], ["m"]), helper.make_node("Relu", ["m"], ["y"])]
+            g = helper.make_graph(nodes, "g", [helper.make_tensor_value_info("a", TensorProto.FLOAT, list(sa))], [helper.make_tensor_value_info("y", TensorProto.FLOAT, None)],
+                                  initializer=[numpy_helper.from_array(np.full(cshape, 5.0, np.float32), "c")], value_info=[helper.make_tensor_value_info("ai", TensorProto.FLOAT, list(sa))])
+            m = helper.make_model(g, opset_imports=[helper.make_opsetid("", 21)])
+            m.ir_version = 10
+            what = f"Add(a declared {list(sa)}, constant of shape {list(cshape)}) fed {list(ra)} -> {list(out)}"
+            ok, detail = check_pass(m, _single("propagate_elementwise_shapes_ir"), {"a": np.ones(ra, np.float32)}, what)
+            if ok is False:
+                return False, detail
+            n += 1 if ok else 0
+    return True, f"{n} elementwise graphs truthfully annotated after propagate_elementwise_shapes_ir"
+
+
+ALL["C08_elementwise_refresh_family"] = C08_elementwise_refresh_family
